@@ -152,7 +152,7 @@ def run(tier, only=None):
         R.case(r["case"], True, sample=r["case"] if i % 101 == 0 else None, section="table")
         for sig in r["bad"]:
             R.violation(sig, {"case": r["case"]})
-    for r in check_exc(pmap(_random_job, range(60 if tier == "quick" else 600))):
+    for r in check_exc(pmap(_random_job, range(60 if tier == "quick" else 6000))):
         R.case(["random", r["k"]], True, sample=r["case"] if r["k"] % 37 == 0 else None, section="random")
         for sig in r["bad"]:
             R.violation(sig, {"k": r["k"], "case": r["case"]})
